@@ -126,6 +126,12 @@ func generate(w *World, prop string, only string) *genResult {
 	}
 	// package-wide structural disciplines
 	for _, u := range w.cs.Units {
+		for i, rd := range u.ReachDisciplines {
+			if prop != "" && !hasTag(rd.Tags, prop) {
+				continue
+			}
+			r.obls = append(r.obls, reachDisciplineObl(w, u, rd, i+1))
+		}
 		for _, fd := range u.FieldDisciplines {
 			if prop != "" && !hasTag(fd.Tags, prop) {
 				continue
@@ -213,6 +219,91 @@ func fieldDisciplineObl(w *World, u *Unit, sp *ssa.Package, fd FieldDiscipline) 
 	}
 	g := &gen{w: w, declared: map[string]bool{}}
 	return &Obl{Name: fmt.Sprintf("%s#field.%s.%s", u.PkgName, fd.Struct, fd.Field), Func: u.PkgName, Clause: clause, Goal: goal, G: g, Kind: "discipline", Tags: fd.Tags}
+}
+
+// reachDisciplineObl: breadth-first search over the static call graph of every function that has a
+// body in the loaded program.  Interface calls are resolved by method name to every method of that
+// name in the module (an over-approximation); dynamic calls of function values are followed into the
+// closures created in the same function.
+func reachDisciplineObl(w *World, u *Unit, rd ReachDiscipline, n int) *Obl {
+	forbidden := map[string]bool{}
+	for _, f := range rd.Forbidden {
+		forbidden[f] = true
+	}
+	byMethod := map[string][]*ssa.Function{}
+	for _, fn := range w.funcsByKey {
+		if fn.Signature.Recv() != nil && fn.Blocks != nil {
+			byMethod[fn.Name()] = append(byMethod[fn.Name()], fn)
+		}
+	}
+	type item struct {
+		fn   *ssa.Function
+		path string
+	}
+	var queue []item
+	seen := map[*ssa.Function]bool{}
+	var missing []string
+	for _, r := range rd.Roots {
+		fn := w.funcsByKey[r]
+		if fn == nil {
+			missing = append(missing, r)
+			continue
+		}
+		queue = append(queue, item{fn, r})
+		seen[fn] = true
+	}
+	var offenders []string
+	g := &gen{w: w, declared: map[string]bool{}}
+	for len(queue) > 0 {
+		it := queue[0]
+		queue = queue[1:]
+		push := func(f *ssa.Function) {
+			if f != nil && !seen[f] && f.Blocks != nil {
+				seen[f] = true
+				queue = append(queue, item{f, it.path + " -> " + w.keyOf(f)})
+			}
+		}
+		for _, b := range it.fn.Blocks {
+			for _, in := range b.Instrs {
+				switch x := in.(type) {
+				case ssa.CallInstruction:
+					c := x.Common()
+					if _, isB := c.Value.(*ssa.Builtin); isB {
+						continue
+					}
+					full, _ := g.calleeName(c)
+					if forbidden[full] {
+						offenders = append(offenders, it.path+" calls "+full)
+					}
+					if c.IsInvoke() {
+						iface, _ := c.Value.Type().Underlying().(*types.Interface)
+						for _, m := range byMethod[c.Method.Name()] {
+							// class-hierarchy resolution: only types that implement the interface
+							if iface != nil && !types.Implements(m.Signature.Recv().Type(), iface) {
+								continue
+							}
+							push(m)
+						}
+					} else if f := c.StaticCallee(); f != nil {
+						push(f)
+					}
+				case *ssa.MakeClosure:
+					push(x.Fn.(*ssa.Function))
+				}
+			}
+		}
+	}
+	sort.Strings(offenders)
+	goal := "true"
+	clause := fmt.Sprintf("no function reachable from %s calls %s (%d functions explored)", strings.Join(rd.Roots, ", "), strings.Join(rd.Forbidden, ", "), len(seen))
+	if len(offenders) > 0 || len(missing) > 0 {
+		goal = "false"
+		if len(offenders) > 3 {
+			offenders = offenders[:3]
+		}
+		clause += "; offenders: " + strings.Join(offenders, " | ") + strings.Join(missing, " missing ")
+	}
+	return &Obl{Name: fmt.Sprintf("%s#no-reach#%d", u.PkgName, n), Func: u.PkgName, Clause: clause, Goal: goal, G: g, Kind: "discipline", Tags: rd.Tags}
 }
 
 func (g *gen) runLemma() {
@@ -370,13 +461,36 @@ func main() {
 func dirsForProp(repo, prop string) []string {
 	// cheap pre-parse: a directory is needed if one of its contract files mentions the tag
 	var out []string
+	add := func(d string) {
+		for _, x := range out {
+			if x == d {
+				return
+			}
+		}
+		out = append(out, d)
+	}
 	for _, d := range contractDirs(repo) {
 		files, _ := filepath.Glob(filepath.Join(repo, d, "zz_contracts*_verif.go"))
 		for _, f := range files {
 			data, _ := os.ReadFile(f)
 			if prop == "" || strings.Contains(string(data), prop) {
-				out = append(out, d)
-				break
+				add(d)
+			}
+			// "//@ load-for C19: internal/db/description, internal/db/id": extra packages whose bodies a
+			// call-graph discipline of that property needs
+			for _, l := range strings.Split(string(data), "\n") {
+				l = strings.TrimSpace(l)
+				if strings.HasPrefix(l, "//@ load-for ") {
+					rest := strings.TrimPrefix(l, "//@ load-for ")
+					k := strings.Index(rest, ":")
+					if k > 0 && (prop == "" || strings.TrimSpace(rest[:k]) == prop) {
+						for _, x := range strings.Split(rest[k+1:], ",") {
+							if x = strings.TrimSpace(x); x != "" {
+								add(x)
+							}
+						}
+					}
+				}
 			}
 		}
 	}
